@@ -37,11 +37,13 @@ def build(r):
     else:
         g = graphs.random_graph(r, n=r.randint(3, 9), kind=kind)
     mode = r.choice(['n', 'v', 'as', 'r'])
-    if mode == 'as':
-        lab = [r.choice('as') for _ in range(g[0])]
-        pos_of = lambda j: lab[j]  # noqa: E731
-    else:
-        pos_of = lambda j: mode  # noqa: E731
+    lab = [r.choice('as') if mode == 'as' else mode for _ in range(g[0])]
+    if r.random() < 0.3:
+        # isolated synsets of parts of speech that information content does not cover (words for them occur in the corpus)
+        for _ in range(r.randint(1, 2)):
+            lab.append(r.choice(['x', 'u', 'c', 'p', 't']))
+        g = (len(lab), g[1])
+    pos_of = lambda j: lab[j]  # noqa: E731
     return g, pos_of
 
 
@@ -125,6 +127,9 @@ def run_case(case, rec):
                     # monotone upwards, probability and information content
                     for j in range(n):
                         p = 'a' if pos_of(j) == 's' else pos_of(j)
+                        if p not in want:
+                            rec.event('other-pos.synsets')
+                            continue
                         for h in ss[j].hypernyms():
                             rec.event('monotone.checked')
                             if freq[p][h.id] < freq[p][ss[j].id] - 1e-12:
